@@ -80,6 +80,7 @@ type verifier struct {
 	slotOwner   map[string]*rowRef // family/slot -> row
 	rows        []*rowRef
 	metrics     []string
+	windows     [][2]int64 // logical time spans of the flush cycles (lazily built)
 }
 
 type rowRef struct {
@@ -686,6 +687,11 @@ func (v *verifier) checkData(res *imgResult, n *node.Node, k int, obs map[partKe
 			// drained one; the family still remembers the sequence stored with its flushed data and refuses the entry
 			return "C07/late-write-refused-after-log-garbage-collection/sequence-of-the-new-log-at-or-below-the-stored-sequence"
 		}
+		if cls := v.lostAroundFailedFlush(ref, k, o.Durable); cls != "" {
+			// not a row of the flush protocol window: it was applied strictly between two flush jobs
+			res.Counters["rows_damaged_around_a_failed_flush"]++
+			return cls
+		}
 		if v.inHole(ref, k) {
 			res.Counters["rows_damaged_in_the_flush_protocol_window"]++
 			if e.Seq > o.Durable {
@@ -736,6 +742,9 @@ func (v *verifier) checkData(res *imgResult, n *node.Node, k int, obs map[partKe
 		st := statusOf(owner.entry)
 		if st == stAbsent {
 			return "C07/query-returns-data-of-an-entry-appended-after-the-image", owner.row.key()
+		}
+		if cls := v.lostAroundFailedFlush(owner, k, obs[owner.entry.Part].Durable); cls != "" {
+			return strings.TrimSuffix(cls, "/replayed-row-not-returned") + "/row-returned-under-another-name", owner.row.key()
 		}
 		if v.inHole(owner, k) {
 			return "C07/flush-protocol-window/row-returned-under-another-name", owner.row.key()
@@ -847,6 +856,14 @@ func (v *verifier) checkData(res *imgResult, n *node.Node, k int, obs map[partKe
 									cnt["required_rows_inside_the_flush_protocol_window"]++
 								} else {
 									cnt["required_rows_outside_the_flush_protocol_window"]++
+								}
+								if waiting, _, _, retried := v.failedFlushState(row, k); waiting != "" || retried != "" {
+									if waiting != "" {
+										cnt["required_rows_with_names_a_failed_"+kindWord(waiting)+"_flush_left_behind"]++
+									}
+									if retried != "" {
+										cnt["required_rows_with_names_created_after_a_failed_"+kindWord(retried)+"_flush_and_covered_by_its_retry"]++
+									}
 								}
 							}
 							switch {
